@@ -270,3 +270,42 @@ func strayPayload(sp Spec) func(g *gen) []ir.Stmt {
 		return out
 	}
 }
+
+// ---- family "reswitch": one switch statement executed again with another subject ----
+//
+// "switch runs exactly the first case equal to its subject" holds for every
+// execution of the statement, whatever an earlier execution of the same node
+// took: a switch with OVERLAPPING cases is executed for each subject of an
+// ordered triple over {1, 2, 3, 4}, in a loop body (form 0), in a function
+// called once per subject (form 1), and with single-valued duplicate cases (form 2).
+var reswitchForms = []string{"loop", "function", "duplicate-cases"}
+
+func reswitchPayload(a, b, c, form int) func(g *gen) []ir.Stmt {
+	return func(g *gen) []ir.Stmt {
+		subj := func(e ir.Expr) ir.Stmt {
+			cases := []ir.Case{
+				{Exprs: []ir.Expr{ir.I(1), ir.I(2)}, Body: []ir.Stmt{g.p()}},
+				{Exprs: []ir.Expr{ir.I(2), ir.I(3)}, Body: []ir.Stmt{g.p()}},
+			}
+			if form == 2 {
+				cases = []ir.Case{
+					{Exprs: []ir.Expr{ir.I(1)}, Body: []ir.Stmt{g.p()}},
+					{Exprs: []ir.Expr{ir.I(2)}, Body: []ir.Stmt{g.p()}},
+					{Exprs: []ir.Expr{ir.I(2)}, Body: []ir.Stmt{g.p()}},
+					{Exprs: []ir.Expr{ir.I(3), ir.I(1)}, Body: []ir.Stmt{g.p()}},
+				}
+			}
+			return ir.Switch{Subject: e, Cases: cases, HasDefault: true, Default: []ir.Stmt{g.p()}, DefaultAt: len(cases)}
+		}
+		vals := []ir.Expr{ir.I(int64(a + 1)), ir.I(int64(b + 1)), ir.I(int64(c + 1))}
+		if form == 1 {
+			lit := &ir.FuncLit{Params: []string{"s"}, Body: []ir.Stmt{subj(ir.Var{Name: "s"})}}
+			out := []ir.Stmt{ir.Set("sw", lit)}
+			for _, v := range vals {
+				out = append(out, ir.ExprStmt{X: ir.Call{Fn: ir.Var{Name: "sw"}, Args: []ir.Expr{v}}})
+			}
+			return out
+		}
+		return []ir.Stmt{ir.ForIn{Vars: []string{"s"}, Coll: ir.List{Elems: vals}, Body: []ir.Stmt{ir.V(ir.Var{Name: "s"}), subj(ir.Var{Name: "s"})}}}
+	}
+}
